@@ -94,7 +94,12 @@ class SymCtx:
         n = self.e.fresh_int(name + "_len", lo, hi)
         if isinstance(n, V.SymInt):
             # witnesses (path models, counterexamples) with a small length when the path allows one: the native runs materialise the bytes
-            self.e.at_path_end.append(lambda eng, n=n: eng.prefer((n <= 4096).t if isinstance(n <= 4096, V.SymBool) else None))
+            def small(eng, n=n):
+                for bound in (4096, 1 << 17, 1 << 20, 1 << 22):  # the smallest class that the path (or the violation) allows
+                    q = n <= bound
+                    eng.prefer(q.t if isinstance(q, V.SymBool) else None)
+
+            self.e.at_path_end.append(small)
         return V.SymBlob.opaque(name, n), n
 
     def blob_of_len(self, name, n):
